@@ -373,7 +373,7 @@ func TestC09BLSPoints(t *testing.T) {
 	for _, f := range blsFmts {
 		f := f
 		t.Run(f.name, func(t *testing.T) {
-			vlib.Check(t, vlib.N(700, 5000), func(t *rapid.T) {
+			vlib.Check(t, vlib.N(700, 3000), func(t *rapid.T) {
 				kind := rapid.SampledFrom(blsKinds).Draw(t, "kind")
 				b, valid, orig := genBLS(t, f, kind)
 				checkBLS(t, f, b, kind, valid, orig)
@@ -463,14 +463,14 @@ func TestC09BLSKeys(t *testing.T) {
 	defer vlib.Done()
 	selftest(t)
 	t.Run("G1", func(t *testing.T) {
-		vlib.Check(t, vlib.N(350, 2000), func(t *rapid.T) {
+		vlib.Check(t, vlib.N(350, 1200), func(t *rapid.T) {
 			kind := rapid.SampledFrom(blsKinds).Draw(t, "kind")
 			b, valid := genBLSKey[sbls.G1](t, blsFmts[0], kind)
 			checkBLSKey[sbls.G1](t, blsFmts[0], b, kind, valid)
 		})
 	})
 	t.Run("G2", func(t *testing.T) {
-		vlib.Check(t, vlib.N(350, 2000), func(t *rapid.T) {
+		vlib.Check(t, vlib.N(350, 1200), func(t *rapid.T) {
 			kind := rapid.SampledFrom(blsKinds).Draw(t, "kind")
 			b, valid := genBLSKey[sbls.G2](t, blsFmts[1], kind)
 			checkBLSKey[sbls.G2](t, blsFmts[1], b, kind, valid)
@@ -577,9 +577,9 @@ func TestC09BLSSignatures(t *testing.T) {
 	defer vlib.Done()
 	selftest(t)
 	t.Run("KeyG1SigG2", func(t *testing.T) {
-		vlib.Check(t, vlib.N(120, 600), func(t *rapid.T) { checkBLSSig[sbls.G1](t, blsFmts[1], "KeyG1SigG2") })
+		vlib.Check(t, vlib.N(120, 400), func(t *rapid.T) { checkBLSSig[sbls.G1](t, blsFmts[1], "KeyG1SigG2") })
 	})
 	t.Run("KeyG2SigG1", func(t *testing.T) {
-		vlib.Check(t, vlib.N(120, 600), func(t *rapid.T) { checkBLSSig[sbls.G2](t, blsFmts[0], "KeyG2SigG1") })
+		vlib.Check(t, vlib.N(120, 400), func(t *rapid.T) { checkBLSSig[sbls.G2](t, blsFmts[0], "KeyG2SigG1") })
 	})
 }
